@@ -6,6 +6,7 @@
 package main
 
 import (
+	"bytes"
 	"context"
 	_ "embed"
 	"encoding/json"
@@ -297,7 +298,8 @@ func handleUpload(ucfg *tconfig.Config, uploadBucket storage.BucketHandle) conte
 			if err != nil {
 				return content.Error(fmt.Errorf("invalid payload: %v", err), http.StatusBadRequest)
 			}
-			if len(strings.TrimSpace(string(rest))) > 0 {
+			// Only JSON's own white space may follow the report.
+			if len(bytes.Trim(rest, " \t\r\n")) > 0 {
 				return content.Error(errors.New("invalid JSON payload: trailing data after the report"), http.StatusBadRequest)
 			}
 			if err := validate(&report, ucfg); err != nil {
